@@ -44,6 +44,14 @@ type State struct {
 	defers  []deferred
 	dead    bool
 	epochs  []epochMark
+	// lazy merge: a key not touched on any merged path resolves to an ite over what it is on each path
+	lazy     *lazyMerge
+	lazyFrom int // marks in epochs[lazyFrom:] were added after the merge and take precedence
+}
+
+type lazyMerge struct {
+	guards  []string
+	origins []*State
 }
 
 type epochMark struct {
@@ -59,7 +67,7 @@ type deferred struct {
 
 func (s *State) clone() *State {
 	n := &State{assumes: s.assumes, vars: make(map[*types.Var]Value, len(s.vars)), heap: make(map[string]string, len(s.heap)),
-		written: s.written, wvars: s.wvars, dead: s.dead, epochs: s.epochs, nonFresh: s.nonFresh}
+		written: s.written, wvars: s.wvars, dead: s.dead, epochs: s.epochs, nonFresh: s.nonFresh, lazy: s.lazy, lazyFrom: s.lazyFrom}
 	for k, v := range s.vars {
 		n.vars[k] = v
 	}
@@ -596,20 +604,58 @@ func (c *Ctx) heapGet(s *State, key, sort string) string {
 	if t, ok := s.heap[key]; ok {
 		return t
 	}
-	// not touched on this path yet: the symbol of the latest havoc epoch covering the key (0 = function entry)
-	epoch := 0
-	for _, m := range s.epochs {
-		if keyMatches(key, m.prefix) {
-			epoch = m.id
+	name := c.resolveKey(s, s, key, sort)
+	s.heap[key] = name
+	return name
+}
+
+// resolveKey gives the symbol of key in state st (not materialised there); definitional facts go to `into`.
+func (c *Ctx) resolveKey(into, st *State, key, sort string) string {
+	if t, ok := st.heap[key]; ok {
+		return t
+	}
+	// havocs after the last merge take precedence
+	epoch := -1
+	start := 0
+	if st.lazy != nil {
+		start = st.lazyFrom
+	}
+	for i := start; i < len(st.epochs); i++ {
+		if keyMatches(key, st.epochs[i].prefix) {
+			epoch = st.epochs[i].id
 		}
 	}
-	if os.Getenv("GOWP_DEBUG") != "" && c.dry == 0 && epoch != 0 && strings.HasPrefix(key, "M.hrpc.RPCResult") {
-		fmt.Fprintf(os.Stderr, "heapGet %s epoch %d marks %v\n", key, epoch, s.epochs)
+	if epoch < 0 && st.lazy != nil {
+		names := make([]string, len(st.lazy.origins))
+		same := true
+		for i, o := range st.lazy.origins {
+			names[i] = c.resolveKey(into, o, key, sort)
+			if names[i] != names[0] {
+				same = false
+			}
+		}
+		if same {
+			return names[0]
+		}
+		t := names[len(names)-1]
+		for i := len(names) - 2; i >= 0; i-- {
+			t = ite(st.lazy.guards[i], names[i], t)
+		}
+		n := c.fresh(sanitize(key), sort)
+		into.assume(eq(n, t))
+		return n
+	}
+	if epoch < 0 {
+		epoch = 0
+		for _, m := range st.epochs {
+			if keyMatches(key, m.prefix) {
+				epoch = m.id
+			}
+		}
 	}
 	name := fmt.Sprintf("%s~e%d", sanitize(key), epoch)
 	c.declare(name, sort)
 	c.noteByteMem(key, name)
-	s.heap[key] = name
 	if epoch == 0 && c.entry != nil {
 		if _, ok := c.entry.heap[key]; !ok {
 			c.entry.heap[key] = name
@@ -748,13 +794,9 @@ func memKey(elem types.Type) string { return "M." + typeKey(elem) }
 // wrapped in the uninterpreted ix (with defining axiom ix(o,k) = o+k) so that quantified facts about slice elements
 // have a trigger without interpreted arithmetic.
 func (c *Ctx) elemIndex(off, idx string) string {
-	if _, lit := isNumLit(off); lit {
-		return add(off, idx)
+	if n, lit := isNumLit(off); lit && n.Sign() == 0 {
+		return idx
 	}
-	if _, lit := isNumLit(idx); lit && false {
-		return add(off, idx)
-	}
-	c.useIx = true
 	return app("ix", off, idx)
 }
 
